@@ -378,6 +378,64 @@ fn c03_sibling_session(ctx: &Ctx, rng: &mut Rng, st: &mut Stats) {
     eng.quit();
 }
 
+
+/// Maximum-depth sessions: on fully blocked positions a time-limited go with a depth limit at or
+/// above the engine's maximum (64) really reaches that depth; the answer is judged like any other.
+fn c03_maxdepth_session(ctx: &Ctx, rng: &mut Rng, st: &mut Stats) {
+    let mut eng = match bb::Engine::spawn(&ctx.engine_bin) {
+        Ok(e) => e,
+        Err(e) => {
+            st.inconclusive.push(format!("cannot start the engine binary: {}", e));
+            return;
+        }
+    };
+    let mut script: Vec<String> = vec![];
+    for k in 0..2 {
+        let p = if k == 0 { gen::g_blocked(rng) } else { Pos::from_fen("8/8/4k3/8/8/4K3/8/8 w - - 0 1").unwrap() };
+        let d = *rng.pick(&[64u32, 64, 65, 100, 255, 63]);
+        // the go returns as soon as the depth limit is reached, so a generous budget costs nothing then
+        let t = if k == 1 { 5000 } else if ctx.quick() { 4000 } else { 8000 };
+        let pos_cmd = format!("position fen {}", p.to_fen());
+        let go = format!("go depth {} movetime {}", d, t);
+        script.push(pos_cmd.clone());
+        script.push(go.clone());
+        let legal: Vec<String> = p.legal_moves().iter().map(|m| m.uci()).collect();
+        let case = J::obj(vec![("kind", J::s("session")), ("commands", J::arr_s(script.clone())), ("position", J::s(p.to_fen()))]);
+        st.case(hash64(&(script.clone(), 64u8)), true);
+        st.bump("go_commands");
+        st.bump("go_with_depth_limit_at_or_above_the_maximum");
+        st.sample_tagged("maxdepth", || J::obj(vec![("position_command", J::s(pos_cmd.clone())), ("go", J::s(go.clone()))]));
+        match eng.command(&pos_cmd, Duration::from_secs(30)).and_then(|_| eng.command(&go, Duration::from_secs(120))) {
+            Ok(lines) => {
+                let deepest = lines.iter().filter(|l| l.starts_with("info")).filter_map(|l| { let t: Vec<&str> = l.split_whitespace().collect(); t.iter().position(|x| *x == "depth").and_then(|i| t.get(i + 1)).and_then(|x| x.parse::<u64>().ok()) }).max().unwrap_or(0);
+                st.maxi("max_iteration_completed_by_a_go", deepest);
+                if deepest >= 64 {
+                    st.bump("searches_that_completed_iteration_64");
+                    if k == 0 {
+                        st.bump("searches_that_completed_iteration_64_behind_pawn_walls");
+                    }
+                }
+                let bms: Vec<&String> = lines.iter().filter(|l| l.starts_with("bestmove")).collect();
+                let ans = bms.first().and_then(|l| l.split_whitespace().nth(1)).unwrap_or("").to_string();
+                let ok = bms.len() == 1 && if legal.is_empty() { ans == "0000" } else { legal.contains(&ans) };
+                if !ok {
+                    st.violation(format!("C03:illegal-at-max-depth:{}:{}", pos_cmd, go), format!("'{}' on {} answered '{}' ({} bestmove lines), which is not a legal move there", go, p.to_fen(), ans, bms.len()), case);
+                    break;
+                }
+            }
+            Err(bb::Fail::Died(status)) => {
+                st.violation(format!("C03:died:{}:{}", pos_cmd, go), format!("the engine process ended ({}) instead of answering '{}' on {}", status, go, p.to_fen()), case);
+                return;
+            }
+            Err(bb::Fail::Timeout) => {
+                st.inconclusive.push(format!("no answer to '{}' on {} within 120 s", go, p.to_fen()));
+                return;
+            }
+        }
+    }
+    eng.quit();
+}
+
 /// In-process part (hook build): the deadline of a `go` is placed, deterministically, after every
 /// node count L (or at the n-th deadline poll) of a depth-limited search, on ONE engine that keeps
 /// its tables across all these interrupted searches; the answer recorded by the hook must be a
@@ -492,9 +550,9 @@ fn c03_inprocess(ctx: &Ctx) -> Stats {
 pub fn run_c03(ctx: &Ctx) -> i32 {
     let spec = Spec {
         level: "exploration",
-        rule: "a case is one 'go' inside a session on ONE process of the real release binary: sessions of 5..40 gos mix self-play continuation (the engine's own answers are appended to the move list), jumps to unrelated games and back without ucinewgame, jumps to sibling positions (equal to one just searched except for the ep target, one castling right, the side to move, the counters or one piece) and dedicated sibling-pair sessions (deep search of P, then shallower search of its sibling), occasional ucinewgame, mates / stalemates / single-move positions and promotion / en-passant / castling studies, and parameter sets depth 1..5, movetime {0,1,2,5,20,50}, clocks around the 5 s reserve with increments in shuffled token order. Each go must be answered by exactly one bestmove line naming a legal move of the position last set (0000 exactly when there is none); a process that dies is a violation, one that does not answer within 120 s is inconclusive. In-process part (hook build of the same sources): on one engine that keeps its tables, 'go depth d' is interrupted by a deterministic deadline after every node count (small searches) or a stratified sample, and at sampled deadline polls; the answer recorded by the hook must be legal every time. Distinct by (session, index, commands); non-trivial when earlier searches ran in the same process",
+        rule: "a case is one 'go' inside a session on ONE process of the real release binary: sessions of 5..40 gos mix self-play continuation (the engine's own answers are appended to the move list), jumps to unrelated games and back without ucinewgame, jumps to sibling positions (equal to one just searched except for the ep target, one castling right, the side to move, the counters or one piece) and dedicated sibling-pair sessions (deep search of P, then shallower search of its sibling), occasional ucinewgame, mates / stalemates / single-move positions and promotion / en-passant / castling studies, and parameter sets depth 1..5, movetime {0,1,2,5,20,50}, clocks around the 5 s reserve with increments in shuffled token order; maximum-depth sessions send 'go depth {63,64,65,100,255} movetime T' on fully blocked pawn-wall positions and on bare kings, where iterative deepening really reaches iteration 64 within the budget. Each go must be answered by exactly one bestmove line naming a legal move of the position last set (0000 exactly when there is none); a process that dies is a violation, one that does not answer within 120 s is inconclusive. In-process part (hook build of the same sources): on one engine that keeps its tables, 'go depth d' is interrupted by a deterministic deadline after every node count (small searches) or a stratified sample, and at sampled deadline polls; the answer recorded by the hook must be legal every time. Distinct by (session, index, commands); non-trivial when earlier searches ran in the same process",
         assumptions: vec!["the reference rules implementation is correct (perft self-test at every run)".into(), "'go infinite' and parameterless 'go' are not sent (the engine has no stop command to end them)".into()],
-        required: if ctx.replay.is_some() { vec![] } else { vec!["go_depth", "go_movetime", "go_movetime_0", "go_clock", "go_on_position_without_legal_move", "go_on_position_with_single_legal_move", "go_after_earlier_searches_in_process", "jumps_to_an_unrelated_game", "returns_to_an_earlier_game", "jumps_to_a_sibling_position", "sibling_pairs_searched", "ucinewgame_in_session", "inprocess_go_with_deterministic_deadline"] },
+        required: if ctx.replay.is_some() { vec![] } else { vec!["go_depth", "go_movetime", "go_movetime_0", "go_clock", "go_on_position_without_legal_move", "go_on_position_with_single_legal_move", "go_after_earlier_searches_in_process", "jumps_to_an_unrelated_game", "returns_to_an_earlier_game", "jumps_to_a_sibling_position", "sibling_pairs_searched", "ucinewgame_in_session", "inprocess_go_with_deterministic_deadline", "go_with_depth_limit_at_or_above_the_maximum", "searches_that_completed_iteration_64"] },
         exhaustive: false,
         extra: vec![],
     };
@@ -537,6 +595,9 @@ pub fn run_c03(ctx: &Ctx) -> i32 {
                     e.quit();
                 }
             }
+        }
+        for _ in 0..(if ctx.quick() { 1 } else { 4 }) {
+            c03_maxdepth_session(ctx, &mut rng, &mut st);
         }
         for i in 0..(n / ctx.workers as u64 + 1) {
             if i >= 1 && ctx.past(0.6) {
